@@ -53,10 +53,16 @@ func injectRoot(v cty.Value, thorough bool) []cty.Value {
 			add(func() cty.Value { return cty.UnknownVal(ty).Refine().StringPrefixFull("%").NewValue() })
 		}
 	case ty.IsCollectionType():
-		add(func() cty.Value { return cty.UnknownVal(ty).Refine().NotNull().CollectionLengthLowerBound(1).NewValue() })
-		add(func() cty.Value { return cty.UnknownVal(ty).Refine().NotNull().CollectionLengthUpperBound(2).NewValue() })
+		add(func() cty.Value {
+			return cty.UnknownVal(ty).Refine().NotNull().CollectionLengthLowerBound(1).NewValue()
+		})
+		add(func() cty.Value {
+			return cty.UnknownVal(ty).Refine().NotNull().CollectionLengthUpperBound(2).NewValue()
+		})
 		if thorough {
-			add(func() cty.Value { return cty.UnknownVal(ty).Refine().NotNull().CollectionLengthUpperBound(0).NewValue() })
+			add(func() cty.Value {
+				return cty.UnknownVal(ty).Refine().NotNull().CollectionLengthUpperBound(0).NewValue()
+			})
 			add(func() cty.Value {
 				return cty.UnknownVal(ty).Refine().CollectionLengthLowerBound(1).CollectionLengthUpperBound(1).NewValue()
 			})
